@@ -39,7 +39,7 @@
 (*            the correctly rounded true value (RN of a point of the       *)
 (*            enclosure; the table value for poles / infinite inputs) has  *)
 (*            NO failing clause, and the same result with one component    *)
-(*            moved by 40 lattice steps (or replaced by NaN) has one       *)
+(*            moved by 17 lattice steps (or replaced by NaN) has one       *)
 (* States: root -> <<"group", law, fn>> -> the instances.  The driver      *)
 (* checks that the number of distinct states equals 1 + groups + the sum   *)
 (* of the printed group sizes.                                             *)
@@ -192,23 +192,22 @@ Ideal(fn, x, y) ==
         LET d == PoleTable(fn, sx, sy) IN <<OfDesc(fn, d.re), OfDesc(fn, d.im)>>
       ELSE LET t == TrueVal(fn, Val(f, x), Val(f, y), sx, sy, 96)
            IN  <<OfIv(t.re, ExpZero(fn, "re", sx, sy)), OfIv(t.im, ExpZero(fn, "im", sx, sy))>>
-\* 40 lattice steps away from zero (toward zero when that would pass infinity): never the mirror image
-Moved(w) == IF IsNaN(Toy, w) THEN w
-            ELSE LET far == NAdd(Mag(Toy, w), NFromInt(40))
-                 IN  IF NCmp(far, InfMag(Toy)) <= 0 THEN WithSign(Toy, SignBit(Toy, w), far)
-                     ELSE WithSign(Toy, SignBit(Toy, w), NSub(Mag(Toy, w), NFromInt(40)))
+\* 17 lattice steps away from zero, or toward zero when that would pass infinity (never across zero: the
+\* mirror image is the value of the other side of a cut); Movable: one of the two is possible
+Step == NFromInt(17)
+Movable(w) == ~IsNaN(Toy, w) /\ (NCmp(NAdd(Mag(Toy, w), Step), InfMag(Toy)) <= 0 \/ NCmp(Mag(Toy, w), Step) >= 0)
+Moved(w) == LET far == NAdd(Mag(Toy, w), Step)
+            IN  IF NCmp(far, InfMag(Toy)) <= 0 THEN WithSign(Toy, SignBit(Toy, w), far)
+                ELSE WithSign(Toy, SignBit(Toy, w), NSub(Mag(Toy, w), Step))
 ToyOK(fn, x, y) ==
   fn # "absolute" =>
     LET w == Ideal(fn, x, y)
         good == VerdictC(fn, Toy, x, y, w[1], w[2])
-        badre == VerdictC(fn, Toy, x, y, Moved(w[1]), w[2])
-        badim == VerdictC(fn, Toy, x, y, w[1], Moved(w[2]))
         nanre == VerdictC(fn, Toy, x, y, ToyNaN, w[2])
-        judged_re == ~IsNaN(Toy, w[1])
-        judged_im == ~IsNaN(Toy, w[2])
     IN  /\ good.fails = {}
-        /\ (judged_re => (badre.fails # {} /\ nanre.fails # {}))
-        /\ (judged_im => badim.fails # {})
+        /\ (~IsNaN(Toy, w[1]) => nanre.fails # {})
+        /\ (Movable(w[1]) => VerdictC(fn, Toy, x, y, Moved(w[1]), w[2]).fails # {})
+        /\ (Movable(w[2]) => VerdictC(fn, Toy, x, y, w[1], Moved(w[2])).fails # {})
 
 (*************************** states ****************************************)
 SignBits(v) == IF DIsZero(v) THEN {0, 1} ELSE {IF DSign(v) < 0 THEN 1 ELSE 0}
